@@ -152,6 +152,15 @@ pub fn run(ctx: &mut Ctx) {
         let a = pool_array(&mut rng, &pool);
         let b = if rng.chance(1, 8) { a.clone() } else { pool_array(&mut rng, &pool) };
         check_pair(ctx, &a, &b);
+        if ctx.case_no % 2003 == 11 && !ctx.miri {
+            let e = rng.pick(&pool).clone();
+            let (na, nb) = (*rng.pick(&[255usize, 256, 257, 259, 300]), *rng.pick(&[254usize, 255, 256, 258, 300]));
+            let mut la: Vec<Tree> = std::iter::repeat(e.clone()).take(na).collect();
+            let mut lb: Vec<Tree> = std::iter::repeat(e.clone()).take(nb).collect();
+            la.insert(rng.below(na), rng.pick(&pool).clone());
+            lb.push(rng.pick(&pool).clone());
+            check_pair(ctx, &Tree::Arr(la), &Tree::Arr(lb));
+        }
         ctx.sample(|| {
             let (i, e) = refops::inter_except(&a, &b);
             format!("a={} b={} -> distinct={} inter={} except={}", a.show(), b.show(), refops::distinct(&a).show(), i.show(), e.show())
